@@ -32,3 +32,4 @@ def run(prog, rep):
     _rkx.run_handles_only(prog, rep)
     from ..rules import r_io as _rio4
     _rio4.run_reclaim(prog, rep)
+    r_frame.run_overload_defaults(prog, rep)
